@@ -129,6 +129,13 @@ def gen_cases(tier, seed):
             t0 = float(rng.uniform(-2, 2))
             cases.append(dict(kind="tol", method=name, rich=0, problem="lin", rate=float(rng.uniform(3.0, 6.0)), dim=2, rtol=rt, atol=1e-13, t0=t0, tf=t0 + d * span,
                               dt=0.05 * span, dtfrac=0.05, decaying=True, pseed=int(rng.integers(1 << 30)), cost=4))
+    # seed-independent: the pairs of order >= 8 at the tight end of the tolerance range, both directions (a defect of size 1e-7 in such a method is
+    # invisible at looser tolerances, and whether a random draw reaches 1e-10 must not depend on the seed)
+    for name in [n for n in adaptive if M[n]["explicit"] and M[n]["order"] >= 8]:
+        for d in (1, -1):
+            for rt in (1e-10, 1e-11):
+                cases.append(dict(kind="tol", method=name, rich=0, problem="lin", dim=3, rtol=rt, atol=rt * 0.1, t0=0.5 * d, tf=0.5 * d + d * 3.0, dt=0.1, dtfrac=0.03,
+                                  pseed=4242 + int(-np.log10(rt)) + (0 if d > 0 else 100), cost=6))
     # per-component absolute tolerances (an array, as scipy's solve_ivp accepts): two uncoupled blocks of magnitude 1 and 1e-5, atol_i proportional to
     # the block's magnitude - every component is judged in ITS OWN unit atol_i + rtol*|y_i| (explicit pairs; the implicit schemes do not take arrays)
     rnga = rng_for(503, seed)
